@@ -2111,7 +2111,7 @@ func BuildHandoverNotify(amfUeNgapID int64, ranUeNgapID int64) (pdu ngapType.NGA
 	//User Location Information
 	ie = ngapType.HandoverNotifyIEs{}
 	ie.Id.Value = ngapType.ProtocolIEIDUserLocationInformation
-	ie.Criticality.Value = ngapType.CriticalityPresentReject
+	ie.Criticality.Value = ngapType.CriticalityPresentIgnore
 	ie.Value.Present = ngapType.HandoverNotifyIEsPresentUserLocationInformation
 	ie.Value.UserLocationInformation = new(ngapType.UserLocationInformation)
 
